@@ -142,6 +142,28 @@ def _worker(idx):
             consumed = ep.off if isinstance(ep, CPtr) else None
             if got != (p.year, p.month, p.day, p.hour, p.minute, p.second) or consumed != len(text):
                 bad.setdefault(key, []).append((p.isoformat(), "parse", "%s (%s of %d characters read)" % (got, consumed, len(text)), repr(text)))
+        # the same instant shown in a zone (what the zone conversion of the output side leaves: the local date-time and the offset
+        # in quarter hours): the epoch seconds are those of the instant, the clock time is the zone's
+        for q in (8, -20, 22):
+            loc = p + datetime.timedelta(seconds=900 * q)
+            if not (1601 < loc.year < 4095):
+                continue
+            zval = {"typ": E["DT_YMD"], "sandwich": 1, "d.typ": E["DT_YMD"], "d.ymd.y": loc.year, "d.ymd.m": loc.month, "d.ymd.d": loc.day,
+                    "t.typ": E["DT_HMS"], "t.hms.h": loc.hour, "t.hms.m": loc.minute, "t.hms.s": loc.second, "t.hms.ns": 0,
+                    "zdiff": abs(q), "neg": 1 if q < 0 else 0}
+            key = "%s %T (shown in a zone)"
+            buf = [0] * 96
+            fo = fold.Folder(ff, calls=calls, inline=True, max_steps=3000000)
+            fo._tabs = tabs
+            n += 1
+            try:
+                r = fo.run([CPtr(buf, 0), 96, cstr("%s %T"), dict(zval)])
+                text = bytes(buf[:r]).decode("latin-1") if isinstance(r, int) and 0 <= r <= 96 else None
+            except fold.Abort as e:
+                text = "abort: %s" % e
+            exp = "%d %02d:%02d:%02d" % (int((p - EPOCH).total_seconds()), loc.hour, loc.minute, loc.second)
+            if text != exp:
+                bad.setdefault(key, []).append((p.isoformat() + " UTC at %+d min" % (15 * q), "print", repr(text), repr(exp)))
     return n, bad
 
 
@@ -183,7 +205,7 @@ def run_parallel(R, P, rule, jobs=12):
         n += k
         for key, lst in b.items():
             bad.setdefault(key, []).extend(lst)
-    for items in FORMATS:
+    for items in FORMATS + [["%s %T (shown in a zone)"]]:
         key = "".join(items) if items is not None else "(no format)"
         if key in bad:
             lst = sorted(bad[key])
